@@ -65,6 +65,7 @@ type c23Res struct {
 	State  [][4]string `json:"state,omitempty"`  // key, offset, data, score
 	Stream [][4]string `json:"stream,omitempty"` // offset, key, data, removed
 	Err    string     `json:"err,omitempty"`
+	Count  int        `json:"count,omitempty"`
 }
 
 // per run, per channel epoch tokens
@@ -118,6 +119,9 @@ func c23Upd(r MapUpdateResult, err error) c23Res {
 	return res
 }
 
+// c23Ordered: the channel configuration of the current case is ordered (ReadState order is observable).
+var c23Ordered bool
+
 // c23Exec runs one abstract operation against a map broker.
 func c23Exec(b MapBroker, op c23Op, ep *c23Epochs) (res c23Res) {
 	defer func() {
@@ -163,7 +167,10 @@ func c23Exec(b MapBroker, op c23Op, ep *c23Epochs) (res c23Res) {
 		for _, p := range all {
 			out.State = append(out.State, [4]string{p.Key, strconv.FormatUint(p.Offset, 10), string(p.Data), strconv.FormatInt(p.Score, 10)})
 		}
-		sort.SliceStable(out.State, func(i, j int) bool { return out.State[i][0] < out.State[j][0] })
+		if !c23Ordered {
+			// unordered channels: compared in key order (= up to page boundaries)
+			sort.SliceStable(out.State, func(i, j int) bool { return out.State[i][0] < out.State[j][0] })
+		}
 		return out
 	case "stream":
 		r, err := b.ReadStream(ctx, op.Ch, MapReadStreamOptions{Filter: StreamFilter{Since: pos, Limit: op.Limit, Reverse: op.Reverse}})
@@ -178,6 +185,12 @@ func c23Exec(b MapBroker, op c23Op, ep *c23Epochs) (res c23Res) {
 			out.Stream = append(out.Stream, [4]string{strconv.FormatUint(p.Offset, 10), p.Key, string(p.Data), vBool(p.Removed)})
 		}
 		return out
+	case "stats":
+		st, err := b.Stats(ctx, op.Ch)
+		if err != nil {
+			return c23Res{Kind: "err", Err: err.Error()}
+		}
+		return c23Res{Kind: "count", Count: st.NumKeys}
 	case "expire":
 		// one key-TTL sweep, after every key published so far has passed its (short) KeyTTL
 		time.Sleep(time.Duration(op.Limit) * time.Millisecond)
@@ -230,6 +243,8 @@ func c23OpCoq(i int, op c23Op, nonceR string, now uint64, node string) string {
 		return vApp("MReadStream", c18Str(op.Ch), c23PosCoq(op), vZ(int64(op.Limit)), vBool(op.Reverse), nr, nm)
 	case "expire":
 		return vApp("MCleanup", vN(now), c18Str(node))
+	case "stats":
+		return vApp("MStats", c18Str(op.Ch))
 	default:
 		return vApp("MClear", c18Str(op.Ch))
 	}
@@ -241,6 +256,8 @@ func c23ResCoq(r c23Res, ch string, ep *c23Epochs) string {
 		return "MUnrec"
 	case "unit":
 		return "MUnit"
+	case "count":
+		return vApp("MCount", vN(uint64(r.Count)))
 	case "upd":
 		cur := "None"
 		if r.Cur != nil {
@@ -277,6 +294,7 @@ func c23Setup(t *testing.T) *c23Env {
 	c18NonceIdx["map_broker_add"] = 6
 	c18NonceIdx["map_broker_read_unordered"] = 2
 	c18NonceIdx["map_broker_stream_read"] = 5
+	c18NonceIdx["map_broker_read_ordered"] = 3
 	coq, err := c18StartCoqWith("Model.Redis Model.RedisMapServer", "map_srv_step")
 	if err != nil {
 		t.Fatalf("coqtop: %v", err)
@@ -288,6 +306,8 @@ func c23Setup(t *testing.T) *c23Env {
 		c18Sha(brokerStateReadMetaScriptSource):      "map_broker_read_meta",
 		c18Sha(brokerStateFindExpiredScriptSource):   "map_broker_find_expired",
 		c18Sha(brokerStateBatchRemoveScriptSource):   "map_broker_batch_remove",
+		c18Sha(brokerStateReadOrderedScriptSource):   "map_broker_read_ordered",
+		c18Sha(brokerStateStatsScriptSource):         "map_broker_stats",
 	})
 	if err != nil {
 		t.Fatal(err)
@@ -333,6 +353,9 @@ func (e *c23Env) runRedis(t *testing.T, ops []c23Op) c23Run {
 			tokR = run.ep.learn(i, op.Ch, nonce)
 		}
 		var now uint64
+		if op.Kind == "state" && e.cfg.Ordered && op.Key == "" && op.Limit != 0 {
+			log = nil // the pages of an ordered read depend on the replies
+		}
 		if op.Kind == "expire" {
 			// the sweep's commands depend on the replies; only its time is taken from the wire
 			for _, c := range log {
@@ -397,6 +420,8 @@ var c23Recoverable = c23Cfg{Mode: 2, KeyTTL: 3600000, Size: 100, STTL: 3600000, 
 var c23Ephemeral = c23Cfg{Mode: 1, KeyTTL: 3600000}
 var c23RecoverableTTL = c23Cfg{Mode: 2, KeyTTL: 40, Size: 100, STTL: 3600000, MTTL: 36000000}
 var c23EphemeralTTL = c23Cfg{Mode: 1, KeyTTL: 40}
+var c23Ordered3 = c23Cfg{Mode: 3, Size: 100, STTL: 3600000, Ordered: true}
+var c23Ordered2 = c23Cfg{Mode: 2, KeyTTL: 3600000, Size: 100, STTL: 3600000, MTTL: 36000000, Ordered: true}
 
 type c23Probe struct {
 	name string
@@ -468,6 +493,16 @@ var c23Probes = []c23Probe{
 		c23P("a", "k3", "d3", nil), {Kind: "state", Ch: "a", Limit: -1}}},
 	{name: "ephemeral-single-key-revision", cfg: c23Ephemeral, ops: []c23Op{
 		c23P("a", "k1", "d1", nil), {Kind: "state", Ch: "a", Limit: -1, Key: "k1", Pos: true, PEpoch: "bogus"}}},
+	{name: "ordered", cfg: c23Ordered3, ops: []c23Op{
+		{Kind: "state", Ch: "a", Limit: -1},
+		c23P("a", "k1", "d1", func(o *c23Op) { o.Score = 5 }), c23P("a", "k2", "d2", func(o *c23Op) { o.Score = 1 }),
+		c23P("a", "k3", "d3", func(o *c23Op) { o.Score = 5 }), c23P("a", "k4", "d4", func(o *c23Op) { o.Score = 3 }),
+		c23P("a", "k0", "d5", func(o *c23Op) { o.Score = 5 }),
+		{Kind: "state", Ch: "a", Limit: -1}, {Kind: "state", Ch: "a", Limit: -1, Asc: true},
+		{Kind: "state", Ch: "a", Limit: 1}, {Kind: "state", Ch: "a", Limit: 2, Asc: true}, {Kind: "state", Ch: "a", Limit: 3},
+		c23P("a", "k2", "d6", func(o *c23Op) { o.Score = 9 }), {Kind: "rem", Ch: "a", Key: "k3"},
+		{Kind: "state", Ch: "a", Limit: 2}, {Kind: "state", Ch: "a", Limit: -1, Asc: true}, {Kind: "stats", Ch: "a"},
+		{Kind: "state", Ch: "a", Limit: -1, Key: "k1"}, {Kind: "state", Ch: "a", Limit: 0}, {Kind: "stream", Ch: "a", Limit: -1}}},
 	{name: "state-limit0-revision", cfg: c23Persistent, ops: []c23Op{
 		c23P("a", "k1", "d1", nil), {Kind: "state", Ch: "a", Limit: 0, Pos: true, POff: 1, PEpoch: "bogus"}}},
 }
@@ -501,7 +536,7 @@ func c23Gen(r *rand.Rand) []c23Op {
 				delete(created, ch)
 				count[ch] = 0
 			} else {
-				ops = append(ops, c23Op{Kind: "stream", Ch: ch, Limit: -1})
+				ops = append(ops, c23Op{Kind: "stats", Ch: ch})
 			}
 		case k < 6:
 			id++
@@ -667,6 +702,8 @@ func c23Tags(cfg c23Cfg, ops []c23Op, mem []c23Res, red []c23Res) string {
 			exists[op.Ch] = false
 			cleared[op.Ch] = true
 			continue
+		case "stats", "expire":
+			continue
 		}
 		exists[op.Ch] = true
 	}
@@ -698,14 +735,29 @@ func TestVerifC23(t *testing.T) {
 			ops, cfg, class = c23Probes[i].ops, c23Probes[i].cfg, "probe:"+c23Probes[i].name
 		} else {
 			ops = c23Gen(r)
-			switch r.Intn(6) {
+			switch r.Intn(8) {
 			case 0, 1:
 				cfg, class = c23Recoverable, "recoverable-unordered"
 			case 2:
 				cfg, class = c23Ephemeral, "ephemeral-unordered"
+			case 3:
+				cfg, class = c23Ordered3, "persistent-ordered"
+			case 4:
+				cfg, class = c23Ordered2, "recoverable-ordered"
+			}
+			if cfg.Ordered {
+				for k := range ops {
+					if ops[k].Kind == "pub" {
+						ops[k].Score = int64(r.Intn(4))
+					}
+					if ops[k].Kind == "state" {
+						ops[k].Asc = r.Intn(2) == 0
+					}
+				}
 			}
 		}
 		e.cfg = cfg
+		c23Ordered = cfg.Ordered
 		rr := e.runRedis(t, ops)
 		mr := e.runMemory(t, ops)
 
